@@ -356,10 +356,10 @@ def describe(row):
     return "base-class check"
 
 
-def rule_isvisible(chk, p, t):
-    r_cov = chk.rule("C02.R2", "constraint coverage", 12, "every `return True` of each sensor class' isVisible chain is preceded on all paths by the passing test of each constraint atom of that class (optional constraints: `x is not None and cmp`)", "that each predicate equals the exact geometry")
-    r_bind = chk.rule("C02.R3", "reason binding", 14, "every `return False, Explanation.X` / MissedObservation(reason=X) is control-dependent on X's constraint failing; the fall-through azimuth reason is reached only after every other check passed")
-    r_pol = chk.rule("C02.R4", "comparator polarity", 10, "each threshold guard compares the documented operands with the documented operator (a moved boundary `<` vs `<=` is reported)")
+def rule_isvisible(chk, p, t, rids=("C02.R2", "C02.R3", "C02.R4")):
+    r_cov = chk.rule(rids[0], "constraint coverage", 12, "every `return True` of each sensor class' isVisible chain is preceded on all paths by the passing test of each constraint atom of that class (optional constraints: `x is not None and cmp`)", "that each predicate equals the exact geometry")
+    r_bind = chk.rule(rids[1], "reason binding", 14, "every `return False, Explanation.X` / MissedObservation(reason=X) is control-dependent on X's constraint failing; the fall-through azimuth reason is reached only after every other check passed")
+    r_pol = chk.rule(rids[2], "comparator polarity", 10, "each threshold guard compares the documented operands with the documented operator (a moved boundary `<` vs `<=` is reported)")
     sensor = p.cls(SENSOR)
     impls = [(sensor.methods["isVisible"], "Sensor")]
     for sc in p.subclasses(sensor):
